@@ -93,6 +93,16 @@ def universal_paths():
 
 
 def file_content(path):
+    base = os.path.basename(path)
+    if base in ("crlf.py", "cr.js", "latin.java"):
+        # bytes that do not survive a decode / encode round trip: CRLF and lone-CR line ends, a legacy 8-bit encoding
+        lang = language_of(base)
+        text = canon.render({"lang": lang, "items": [{"k": "func", "name": "fn", "style": "same", "body": [{"k": "simple"}]}]})[0]
+        if base == "crlf.py":
+            return text.replace("\n", "\r\n").encode()
+        if base == "cr.js":
+            return text.replace("\n", "\r").encode()
+        return ("// caf\u00e9 \u00fc\n" + text).encode("latin-1")
     if os.path.basename(path) == "big.py":
         return harness.py_function("before_blob", 4) + "\nBLOB = \"\"\"\n" + ("0123456789abcdef" * 4 + "\n") * 19000 + "\"\"\"\n\n" + harness.py_function("after_blob", 5)
     lang = language_of(os.path.basename(path))
@@ -282,7 +292,8 @@ def compare(paths, patterns, files, seen, exc, sig):
         if lang != want[p]:
             out.append(("wrong-language", sig, f"{p}: {lang} expected {want[p]}"))
             break
-        if chk != hashlib.md5(file_content(p).encode()).hexdigest():
+        content = file_content(p)
+        if chk != hashlib.md5(content if isinstance(content, bytes) else content.encode()).hexdigest():
             out.append(("wrong-checksum", sig, p))
             break
     if sorted(seen) != sorted(want):
@@ -329,6 +340,8 @@ DEGENERATE = {
     "backslash": ["pkg\\util.py", "pkg/util.py", "a\\b.js", "src/c\\d.ts"],
     # a source file larger than 1 MiB is still a source file
     "big-file": ["big.py", "src/a.py"],
+    # the checksum is the checksum of the file's BYTES
+    "line-ends-and-encodings": ["crlf.py", "src/cr.js", "src/latin.java", "a.py"],
     "deep": ["src/pkg/src/pkg/src/a.py", "src/pkg/src/.hid/pkg/a.py", "src/pkg/tests/pkg/a.py"],
     "pruned": None,
 }
